@@ -26,6 +26,8 @@ func main() {
 		cmdReload(os.Args[2:])
 	case "life":
 		cmdLife(os.Args[2:])
+	case "args":
+		cmdArgs(os.Args[2:])
 	case "concgate":
 		cmdConcGate(os.Args[2:])
 	case "concstress":
